@@ -3,6 +3,7 @@
 import json, os
 VERIF = os.path.dirname(os.path.dirname(os.path.abspath(__file__)))
 HOOK_COMMITS = ["2a964bf", "fa83b6a"]
+FIX_COMMITS = ["856f863", "44eea87", "8d8cd8f", "c6ea88a", "2faf33b", "0d420de"]
 
 CLAIMS = {
  "C16": dict(
@@ -25,6 +26,14 @@ CLAIMS = {
   text="Coq theorems for every adapter stack of the model, every inner stream/script and every outer op sequence: delivered bytes ++ still-unread bytes is invariant (no loss, duplication, reordering, invention), the inner writer holds exactly the accepted bytes in order (also for vectored writes), per-op bounds, TokioIo filled/initialised bookkeeping, EOF/Pending/error propagation. Tied to the real TokioIo (both directions, nested), Rewind, TlsBraid, client and server Stream wrappers by per-operation differential runs against a scripted inner stream.",
   note="Trusted: Coq kernel+VM; hand model (forwarding adapters are identity in the model, so for them the theorem is only as strong as the correspondence run); absence of UB in the unsafe blocks is not expressible (R1); real TCP/Unix/duplex sockets under Braid are exercised by C01 only. No axioms.",
   technique="Coq proof (FIFO refinement invariant over op sequences) + per-op differential correspondence", ref="DESIGN.md 4/C18, 3.4"),
+ "C13": dict(
+  text="Coq theorem for every request record and both connection protocols: the model of the layer stack SetHostHeader -> Http2Checks -> Http1Checks satisfies the executable C13 monitor (origin-form target with path/query preserved and '/' for an empty path, authority-form for CONNECT, Host = URI host + port unless the scheme's default and never overriding the caller's, HTTP/2: version 2, hop-by-hop headers and Host removed, CONNECT rejected, everything else untouched); protocol choice = H2 iff requested or ALPN h2. Tied to the real public layers (stub connection) over a URI/method/version/header grammar and to the real HttpConnectionBuilder over a duplex with scripted ALPN, compared in the kernel.",
+  note="Trusted: Coq kernel+VM; hand model of host.rs/http.rs/protocol choice; oracle O7 (http::Uri accessors: the harness decomposes URIs with the real crate; well-formedness of the decomposition is a stated hypothesis checked on every case); hyper's rendering of the final http::Request on the wire is R2 (C01). Genuine defect D13 fixed (2faf33b). No axioms.",
+  technique="Coq proof (case analysis + header-list lemmas, monitor = spec) + differential correspondence", ref="DESIGN.md 4/C13, 3.5"),
+ "C20": dict(
+  text="Coq theorems for every request record: the model of ValidateSNI's handle() satisfies the C20 monitor (forwarded only if the named host equals the SNI case-insensitively with port/userinfo ignored, then marked validated; rejected on mismatch or missing SNI; equal host never rejected; HTTP/2 falls back to Host), plus port-insensitivity of the host extraction and that the comparison is an equivalence. Tied to the real public ValidateSNI layer around a recording service over version x Host x URI x TLS-info products; the model's host extraction is compared with http::uri::Authority::host on every case.",
+  note="Trusted: Coq kernel+VM; hand model of sni.rs handle(); oracle O7 (which strings parse as an Authority); that TlsConnectionInfo carries the handshake's real SNI is info/tls + rustls (R3). Genuine defect D11 fixed (0d420de). No axioms.",
+  technique="Coq proof (case analysis, string lemmas) + differential correspondence", ref="DESIGN.md 4/C20, 3.7"),
 }
 
 def main():
